@@ -73,13 +73,14 @@ def convertTop (raw : GoVal) : Out (List (String × GoVal)) :=
   | .ok _ => .err "topLevelNotMapping"
 
 /-- `parseYAML`: the same conversion, but the result is asserted *without* `, ok` on both branches -/
+def assertMap : Except String GoVal → Out (List (String × GoVal))
+  | .error c => .err c
+  | .ok (.map kvs) => .ok kvs
+  | .ok _ => .panic "parseYAML:converted.(map[string]interface{})"
+
 def parseYAMLTop (raw : GoVal) : Out (List (String × GoVal)) :=
   match raw with
-  | .map _ | .imap _ =>
-    match convert raw with
-    | .error c => .err c
-    | .ok (.map kvs) => .ok kvs
-    | .ok _ => .panic "parseYAML:converted.(map[string]interface{})"
+  | .map _ | .imap _ => assertMap (convert raw)
   | _ => .err "topLevelNotMapping"
 
 /-! ## `fixEmptyNotNull` -/
